@@ -224,6 +224,9 @@ func evalRange(c *hx.Ctx, r *hx.RNG, tc trieCase) {
 	c.Count("range|"+strings.Join(tc.Ops, ",")+"|"+keys[0]+"|"+keys[len(keys)-1], true)
 	c.Hist[fmt.Sprintf("range:honest:len=%d", min(len(keys), 6))]++
 	honestClass := func(impl, g string) string {
+		if strings.HasPrefix(g, "panic") {
+			return impl + ":honest-range-proof-panics"
+		}
 		if strings.HasPrefix(g, "ok") {
 			return impl + ":honest-range-proof-wrong-more-flag" // verified, but "more elements to the right" is wrong
 		}
@@ -279,7 +282,7 @@ func evalRange(c *hx.Ctx, r *hx.RNG, tc trieCase) {
 }
 
 // replayRange re-runs one stored (possibly altered) range against the proof of its end points
-func replayRange(c *hx.Ctx, rc rangeCase) {
+func replayRange(c *hx.Ctx, rc rangeCase, verbose bool) {
 	b, err := buildTries(rc.Trie)
 	hx.Must(err)
 	first, last := hexF(rc.First), hexF(rc.Keys[len(rc.Keys)-1])
@@ -289,7 +292,9 @@ func replayRange(c *hx.Ctx, rc rangeCase) {
 	hx.Must(b.t1.GetRangeProof(&first, &last, p1))
 	g2 := rangeVerify2(b.root, first, rc.Keys, rc.Values, p2)
 	g1 := rangeVerify1(b.root, first, rc.Keys, rc.Values, p1)
-	fmt.Printf("replay: range %v (altered: %q): trie2.VerifyRangeProof %s, trie.VerifyRangeProof %s\n", rc.Keys, rc.Tamper, g2, g1)
+	if verbose {
+		fmt.Printf("replay: range %v (altered: %q): trie2.VerifyRangeProof %s, trie.VerifyRangeProof %s\n", rc.Keys, rc.Tamper, g2, g1)
+	}
 	if rc.Tamper != "" {
 		if strings.HasPrefix(g2, "ok") {
 			c.Violation("trie2:range-forged:"+rc.Tamper, "replayed: "+g2, rc, false)
@@ -317,14 +322,38 @@ func replayRange(c *hx.Ctx, rc rangeCase) {
 		}
 	}
 	want := fmt.Sprintf("ok more=%v", more)
-	for impl, g := range map[string]string{"trie2": g2, "legacy": g1} {
+	for _, ig := range [][2]string{{"trie2", g2}, {"legacy", g1}} {
+		impl, g := ig[0], ig[1]
 		if g != want {
 			cl := impl + ":honest-range-proof-not-verified"
 			if strings.HasPrefix(g, "ok") {
 				cl = impl + ":honest-range-proof-wrong-more-flag"
 			}
+			if strings.HasPrefix(g, "panic") {
+				cl = impl + ":honest-range-proof-panics"
+			}
 			c.Violation(cl, "replayed: "+g+" want "+want, rc, false)
 		}
+	}
+}
+
+// corpus: minimised failures of earlier runs, run first on every invocation (testdata/*.json hold
+// the same cases as replay files)
+func corpus(c *hx.Ctx) {
+	k250 := "4" + strings.Repeat("0", 62)
+	k250p1 := "4" + strings.Repeat("0", 61) + "1"
+	mk := func(ops []string, keys, vals []string, tamper string) rangeCase {
+		return rangeCase{Trie: trieCase{Hash: "ped", Height: 251, Ops: ops}, First: keys[0], Keys: keys, Values: vals, Tamper: tamper}
+	}
+	for _, rc := range []rangeCase{
+		mk([]string{"1:a", "5:b", "9:c"}, []string{"1", "9"}, []string{"a", "c"}, "inner-element-omitted"),
+		mk([]string{"1:a", k250 + ":b", k250p1 + ":c"}, []string{"1", k250}, []string{"a", "b"}, ""),
+		// two boundary paths with IDENTICAL sub-nodes (same path suffix, same value => same node hash)
+		mk([]string{"1:5", k250p1 + ":5"}, []string{"1", k250p1}, []string{"5", "5"}, ""),
+	} {
+		c.Evaluations++
+		c.Hist["corpus:range"]++
+		replayRange(c, rc, false)
 	}
 }
 
@@ -353,6 +382,7 @@ func main() {
 		c.Finish("replay")
 	}
 
+	corpus(c)
 	nTries, nSynth, nRange := 150, 1200, 120
 	if c.Thorough() {
 		nTries, nSynth, nRange = 2500, 30000, 3000
